@@ -25,22 +25,28 @@ def gen_expr(rnd, nm, depth):
         r2 = rnd.random()
         if r2 < 0.6: return {"op": "gen", "mode": rnd.randrange(nm), "cr": rnd.random() < 0.5}
         if r2 < 0.8: return {"op": "num", "mode": rnd.randrange(nm)}
-        if r2 < 0.9: return {"op": "fnum", "mode": rnd.randrange(nm), "kind": rnd.choice(FKINDS)}       # a function of a number operator
+        if r2 < 0.9:
+            if rnd.random() < 0.25:      # 1/(X + N + 1/2 - X) for a word X that is not number conserving: the argument conserves numbers only after cancellation
+                return {"op": "invc", "mode": rnd.randrange(nm), "arg": {"op": "gen", "mode": rnd.randrange(nm), "cr": rnd.random() < 0.5}}
+            return {"op": "fnum", "mode": rnd.randrange(nm), "kind": rnd.choice(FKINDS)}       # a function of a number operator
         return {"op": "const", "val": f"{rnd.choice([2, -1, 3])}/1,0/1"}
     if r < 0.75: return {"op": "mul", "args": [gen_expr(rnd, nm, depth - 1) for _ in range(rnd.randint(2, 3))]}
     if r < 0.9: return {"op": "add", "args": [gen_expr(rnd, nm, depth - 1) for _ in range(2)]}
     return {"op": "adj", "arg": gen_expr(rnd, nm, depth - 1)}
 
-FKINDS = ["pow2", "inv", "abs", "sq"]
+FKINDS = ["pow2", "inv", "abs", "sq", "abs0", "sqrtsq"]
 def fnum_value(kind, n):
     if kind == "pow2": return Fraction(2) ** n
     if kind == "inv": return Fraction(2, 2 * n + 1)
     if kind == "abs": return Fraction(abs(n - 1))
+    if kind in ("abs0", "sqrtsq"): return Fraction(abs(n))
     return Fraction(n + 1) ** 2
 def fnum_expr(kind, N):
     if kind == "pow2": return sympy.Integer(2) ** N
     if kind == "inv": return 1 / (N + sympy.Rational(1, 2))
     if kind == "abs": return sympy.Abs(N - 1)
+    if kind == "abs0": return sympy.Abs(N)
+    if kind == "sqrtsq": return sympy.sqrt(N ** 2)          # = |N|: negative on no state, also for ladder modes
     return (N + 1) ** 2
 
 def gen_leaf(rnd, nm, p_num=0.3):
@@ -66,6 +72,13 @@ def enum_cases():
         for lw in words(L, llo, lhi):
             for rw in words(L, rlo, rhi):
                 yield spec, {"op": "mul", "args": [w(lw), w(rw)]}
+    # functions of a number operator between generators, every kind, on a boson and on a ladder mode (whose numbers are negative too)
+    for spec in ([('b', 'a')], [('l', 'a')]):
+        L = leaves(1)
+        for lw in L:
+            for kind in FKINDS:
+                for rw in L[:2]:
+                    yield spec, {"op": "mul", "args": [lw, {"op": "fnum", "mode": 0, "kind": kind}, rw]}
 
 def build(e, ops):
     """build with the real NOF arithmetic, mirroring the AST association"""
@@ -73,6 +86,9 @@ def build(e, ops):
     if op == "gen": return NOF.from_expr(Dagger(ops[e["mode"]]) if e["cr"] else ops[e["mode"]], ops)
     if op == "num": return NOF.from_expr(NumberOperator(ops[e["mode"]]), ops)
     if op == "fnum": return NOF.from_expr(fnum_expr(e["kind"], NumberOperator(ops[e["mode"]])), ops)
+    if op == "invc":
+        x = build(e["arg"], ops); y = (x + NOF.from_expr(NumberOperator(ops[e["mode"]]) + sympy.Rational(1, 2), ops)) - x
+        return y ** sympy.Integer(-1)
     if op == "const":
         re = e["val"].split(",")[0]; a, b = re.split("/"); return NOF.from_expr(sympy.Rational(int(a), int(b)), ops)
     if op == "mul":
@@ -92,6 +108,7 @@ def oracle(e, modes, vec):
     if op == "gen": return apply_gen(modes, e["mode"], e["cr"], vec)
     if op == "num": return {s: a * s[e["mode"]] for s, a in vec.items() if s[e["mode"]] != 0}
     if op == "fnum": return {s: a * fnum_value(e["kind"], s[e["mode"]]) for s, a in vec.items() if fnum_value(e["kind"], s[e["mode"]]) != 0}
+    if op == "invc": return {s: a * fnum_value("inv", s[e["mode"]]) for s, a in vec.items()}
     if op == "const":
         a, b = e["val"].split(",")[0].split("/"); c = Fraction(int(a), int(b)); return {s: x * c for s, x in vec.items()}
     if op == "mul":
@@ -108,7 +125,7 @@ def oracle(e, modes, vec):
 def adj_expr(e):
     op = e["op"]
     if op == "gen": return {"op": "gen", "mode": e["mode"], "cr": not e["cr"]}
-    if op in ("num", "const", "fnum"): return e
+    if op in ("num", "const", "fnum", "invc"): return e
     if op == "mul": return {"op": "mul", "args": [adj_expr(a) for a in reversed(e["args"])]}
     if op == "add": return {"op": "add", "args": [adj_expr(a) for a in e["args"]]}
     if op == "adj": return e["arg"]
@@ -150,7 +167,13 @@ def main(seed, ncases, driver, out):
         states = list(itertools.product(*ranges))
         case = {"kinds": [m[0] for m in spec], "expr": e}
         key = stratum + ":" + "".join(m[0] for m in spec); dist[key] = dist.get(key, 0) + 1
-        proc.stdin.write(json.dumps(dict(case, cmd="nof", states=[list(s) for s in states])) + "\n")
+        def to_model(x):
+            if isinstance(x, dict):
+                if x.get("op") == "invc": return {"op": "fnum", "mode": x["mode"], "kind": "inv"}
+                return {k: to_model(v) for k, v in x.items()}
+            if isinstance(x, list): return [to_model(v) for v in x]
+            return x
+        proc.stdin.write(json.dumps(dict(to_model(case), cmd="nof", states=[list(s) for s in states])) + "\n")
         proc.stdin.flush(); line = proc.stdout.readline()
         if line.startswith("bad"):
             failures.append({"case": c, "kind": "driver-rejected", "detail": line.strip(), "input": case}); continue
@@ -160,9 +183,17 @@ def main(seed, ncases, driver, out):
         if any(orc): distinct.add(json.dumps(case, sort_keys=True))
         if len(samples) < 2: samples.append(case)
         try:
-            x = build(e, ops); impl = [nof_apply(spec, x, ops, ph, s) for s in states]
+            x = build(e, ops)
+        except ValueError as ex:
+            if '"invc"' in json.dumps(case):      # refusing a function whose argument conserves numbers only after cancellation is allowed; a wrong value is not
+                dist["refused: function of a cancelling argument"] = dist.get("refused: function of a cancelling argument", 0) + 1; continue
+            failures.append({"case": c, "kind": "implementation-raises", "error": type(ex).__name__ + ": " + str(ex)[:120], "input": case}); continue
         except Exception as ex:
             failures.append({"case": c, "kind": "implementation-raises", "error": type(ex).__name__ + ": " + str(ex)[:120], "input": case}); continue
+        try:
+            impl = [nof_apply(spec, x, ops, ph, s) for s in states]
+        except Exception as ex:
+            failures.append({"case": c, "kind": "implementation-returns-a-form-without-a-value", "error": type(ex).__name__ + ": " + str(ex)[:120], "input": case}); continue
         if model != orc:
             k = next(i for i in range(len(states)) if model[i] != orc[i])
             failures.append({"case": c, "kind": "model-vs-oracle", "input": case, "state": list(states[k]), "model": show(model[k]), "oracle": show(orc[k])})
